@@ -15,7 +15,10 @@ PROP = {'engine': 'c19',
          'GetBlockByHash/Height, HasBlock, GetCandidatesTop(head), IterateUnConfirms, LoadLatestBlock, GetConfirms, AccountManager().GetCanonicalAccount, '
          'account.NewManager(stable).GetAccount, TxProcessor().ReadContract incl. the reward precompile). Shapes: random / deepchain / forks / mine / '
          'bgsign (a packet makes a deep pre-inserted block stable so that the background batch confirm signs its ancestors while other clients insert '
-         'the next blocks) plus 4 fixed-shape histories in every run. Hook H7 (verifhook.Yield) at 5 sites between critical sections, seeded per '
+         'the next blocks), lateconfirms (the same start, then one single-signature packet per remaining deputy for each ancestor that became stable below the confirmed '
+         'block, back to back on one client or spread over the clients, with writes kept pending in the write-behind queue by the yield hooks) plus 6 fixed-shape histories '
+         'in every run. No-loss monitor: every valid deputy signature of a packet InsertConfirms accepted is among the stored confirms of its block after the history (as long as '
+         'the node holds the block). Hook H7 (verifhook.Yield) at 5 sites between critical sections, seeded per '
          'history: off / runtime.Gosched / 0.5-5 ms sleep; every third repetition without delays. Every history is executed 3 times (quick) / 20 times '
          '(thorough) on fresh nodes. Monitors: (1) race detector over everything, class = unordered pair of innermost repository frames; '
          '(2) every BlockConfirmData on the public confirm topic must recover to the node\'s own id over the named hash and name an offered/mined block '
@@ -59,7 +62,7 @@ PROP = {'engine': 'c19',
                'modulo the node\'s own signature on stable blocks and modulo the kind of refusal.',
  'min_cases': {'quick': 100, 'thorough': 3600},
  'min_stats': {'quick': {'overlapping_request_pairs': 150, 'stable_heights_advanced': 60, 'mine_produced_block': 8, 'emitted_confirms_checked': 100,
-                         'lin_searches': 100, 'reads': 3000},
+                         'lin_searches': 100, 'reads': 3000, 'accepted_confirms_checked_for_loss': 100},
                'thorough': {'overlapping_request_pairs': 6000, 'stable_heights_advanced': 2400, 'mine_produced_block': 300, 'emitted_confirms_checked': 4000,
                             'lin_searches': 3600, 'reads': 120000}},
  'timeout_s': {'quick': 600, 'thorough': 3600}}
